@@ -353,6 +353,71 @@ def _redef_child(root, sig_a, sig_b):
     return res
 
 
+def _refn_child(root):
+    """A memento function handed over as an argument is part of the key WITH its version: after it is re-versioned in
+    the running process (a variable it reads changes) the same function object is another argument value."""
+    import importlib
+    import sys
+
+    from .. import audit
+
+    audit.install()
+    setup_store()
+    pkg = os.path.join(root, "vfa")
+    os.makedirs(pkg)
+    open(os.path.join(pkg, "__init__.py"), "w").close()
+    with open(os.path.join(pkg, "mod.py"), "w") as fh:
+        fh.write("import sys\nimport twosigma.memento as m\n\nSCALE = 1\n\n\n@m.memento_function(cluster='vfc')\ndef scaled(x):\n"
+                 "    sys.audit('vf.body', 'scaled', x)\n    return x * SCALE\n\n\n@m.memento_function(cluster='vfc', version='1')\n"
+                 "def apply_fn(fn, x):\n    sys.audit('vf.body', 'apply_fn', x)\n    return fn(x)\n")
+    sys.path.insert(0, root)
+    mod = importlib.import_module("vfa.mod")
+    res = []
+    kept_partial = mod.apply_fn.partial(mod.scaled)
+    for step, scale in enumerate((1, 10, 10, 7)):
+        mod.SCALE = scale
+        qn = mod.scaled.fn_reference().qualified_name
+        want = models.ref_arg_hash({"fn": mod.scaled, "x": 3}, None, fn_info)
+        got = mod.apply_fn.fn_reference().with_args(mod.scaled, 3).arg_hash
+        got_p = kept_partial.fn_reference().with_args(3).arg_hash if step != 2 else mod.apply_fn.partial(mod.scaled).fn_reference().with_args(x=3).arg_hash
+        audit.bodies_reset()
+        val = mod.apply_fn(mod.scaled, 3)
+        res.append({"step": step, "scale": scale, "qn": qn, "hash_ok": got == want, "partial_hash_ok": got_p == want, "value": val,
+                    "bodies": [b[0] for b in audit.bodies()]})
+    return res
+
+
+def refn_case(_):
+    from .. import farm
+    from ..core import HarnessError, rm
+
+    root = scratch_dir("c04f")
+    out = {"evaluations": 1, "states": 4, "transitions": 4, "traces": 1, "violations": [], "outcomes": ["refn"]}
+    try:
+        res = farm.fork_call(_refn_child, root)
+    except farm.ChildFailed as e:
+        raise HarnessError("function-argument child failed: %s" % e)
+    finally:
+        rm(root)
+    seen = set()
+    for r in res:
+        new = r["scale"] not in seen
+        seen.add(r["scale"])
+        bad = None
+        if not r["hash_ok"]:
+            bad = ("hash-differs", "key of apply_fn(scaled, 3) is not the documented hash naming %s" % r["qn"])
+        elif not r["partial_hash_ok"]:
+            bad = ("partial-hash-differs", "key of apply_fn.partial(scaled)(3) is not the documented hash naming %s" % r["qn"])
+        elif r["value"] != 3 * r["scale"]:
+            bad = ("stale-value", "apply_fn(scaled, 3) returned %r with SCALE = %s" % (r["value"], r["scale"]))
+        elif bool(r["bodies"]) != new:
+            bad = ("hit-miss", "apply_fn(scaled, 3) with SCALE = %s ran bodies %s (first time under this version: %s)" % (r["scale"], r["bodies"], new))
+        if bad:
+            out["violations"].append(("fn-argument-reversioned|step:%d|%s" % (r["step"], bad[0]), bad[1] + "\nsteps: %s" % res, {"refn": True}))
+            break
+    return out
+
+
 def redef_case(args):
     from .. import farm
 
@@ -420,6 +485,7 @@ def run(ctx):
     ctx.merge(pmap(pair_case, [(c, ctx.tier) for c in chunks], chunksize=1))
     ctx.merge([context_case(None)])
     ctx.merge(pmap(redef_case, [(a, b) for a in REDEF_SIGS for b in REDEF_SIGS if a != b], chunksize=1))
+    ctx.merge([refn_case(None)])
     ctx.rule += (" Plus: a 3-level call chain under each context (identity and documented key of the nested calls); every ordered pair "
                  "of 5 signatures as definition / re-definition of one function in a running process, all presentations after each.")
     ctx.extra["presentations_3_params"] = len(presentations(["a", "b", "c"], set()))
@@ -433,6 +499,8 @@ def replay(ctx, art):
         r = binding_case((a["function"], tuple(tuple(b) for b in a["binding"]), a.get("tier", "quick")))
     elif "pair" in a:
         r = pair_case(([a["pair"][0]], "quick"))
+    elif "refn" in a:
+        r = refn_case(None)
     elif "redefine" in a:
         r = redef_case((a["redefine"][0], a["redefine"][1]))
     else:
